@@ -16,25 +16,45 @@ class Results:
     def rule(self, rid, text):
         self.rule_texts[rid] = text
 
-    def add(self, rule, fn, instance, ok, site='', detail=''):
+    def add(self, rule, fn, instance, ok, site='', detail='', undecided=False):
+        """ok=True: obligation discharged; ok=False: the code is recognised and contradicts the rule (a
+        violation); undecided=True: the code is not in a shape this rule can judge - recorded in the
+        evidence, never reported as a violation (a behaviour-preserving rewrite must not raise an alarm)"""
         fnk = fn.key if isinstance(fn, Body) else (fn or '')
         key = '%s:%s:%s' % (rule, fnk, instance)
+        if undecided:
+            ok = True
         for it in self.items:
-            if it['key'] == key and it['ok'] == bool(ok):
+            if it['key'] == key and it['ok'] == bool(ok) and it.get('undecided', False) == undecided:
                 return bool(ok)
-        self.items.append({'rule': rule, 'key': key, 'ok': bool(ok), 'site': site, 'detail': detail})
+        it = {'rule': rule, 'key': key, 'ok': bool(ok), 'site': site, 'detail': detail}
+        if undecided:
+            it['undecided'] = True
+        self.items.append(it)
         return bool(ok)
 
-    def anchor_missing(self, rule, what):
-        self.items.append({'rule': rule, 'key': '%s/ANCHOR::%s' % (rule, what), 'ok': False,
-                           'site': '', 'detail': 'anchor not found: %s (fail closed)' % what})
+    def undecided(self, rule, fn, instance, site='', detail=''):
+        return self.add(rule, fn, instance, True, site, detail, undecided=True)
 
-    def floor(self, rule, expected_min):
-        n = sum(1 for i in self.items if i['rule'] == rule)
+    def anchor_missing(self, rule, what, hard=False):
+        """hard: the missing thing is an obligation in itself (e.g. "the end marker is sent") -> violation.
+        soft (default): the idiom this rule reasons about was not found -> no verdict from this rule."""
+        if hard:
+            self.items.append({'rule': rule, 'key': '%s/ANCHOR::%s' % (rule, what), 'ok': False,
+                               'site': '', 'detail': 'not found: %s' % what})
+        else:
+            self.items.append({'rule': rule, 'key': '%s/ANCHOR::%s' % (rule, what), 'ok': True, 'undecided': True,
+                               'site': '', 'detail': 'idiom not recognised, no verdict from this rule: %s' % what})
+
+    def floor(self, rule, expected_min, hard=False):
+        n = sum(1 for i in self.items if i['rule'] == rule and not i.get('undecided'))
         if n < expected_min:
-            self.items.append({'rule': rule, 'key': '%s/FLOOR::' % rule, 'ok': False, 'site': '',
-                               'detail': 'only %d instances matched, floor is %d (a rule that matches '
-                                         'too little must not pass vacuously)' % (n, expected_min)})
+            it = {'rule': rule, 'key': '%s/FLOOR::' % rule, 'ok': not hard, 'site': '',
+                  'detail': 'only %d instances were judged, %d were judged when the rule was confirmed by hand '
+                            '(the code changed shape: %s)' % (n, expected_min, 'violation' if hard else 'no verdict for the missing ones')}
+            if not hard:
+                it['undecided'] = True
+            self.items.append(it)
 
     def count(self, rule):
         return sum(1 for i in self.items if i['rule'] == rule)
@@ -261,6 +281,15 @@ PASS_THROUGH = {
 }
 
 
+def is_lossless_map_err(term):
+    """`r.map_err(From::from)` / `map_err(Into::into)` / `map_err(Error::from)`: the error is converted, not replaced"""
+    c = term.callee
+    if c is None or c.path != 'std::result::Result::map_err' or len(term.args) != 2 or not term.args[1].is_const:
+        return False
+    f = str(term.args[1].fn() or '') + ' ' + str(term.args[1].j.get('s') or '')
+    return 'From>::from' in f or 'convert::From::from' in f or 'Into>::into' in f or 'convert::Into::into' in f or 'as std::convert::From' in f
+
+
 def forward_sinks(body, local, follow_refs=True, max_nodes=500, through=(), skip_variants=()):
     """Where does the value held in `local` end up?  Follows moves/copies/casts into other locals,
     (optionally) borrows, and field extraction.  Returns records:
@@ -313,7 +342,7 @@ def forward_sinks(body, local, follow_refs=True, max_nodes=500, through=(), skip
                     work.append((node.place.local, True))
             elif kind == 'callarg':
                 out.append(('call', node, oi, via))
-                if through and node.callee is not None and node.callee.path in through and not via:
+                if through and node.callee is not None and (node.callee.path in through or is_lossless_map_err(node)) and not via:
                     if node.dest.is_local():
                         work.append((node.dest.local, via))
                     elif node.dest.local == 0:
